@@ -24,6 +24,7 @@ func runC12(r *engine.Run) {
 	r.Rule("AGREE-embed", "writer and reader of the embedded shared-prefix child agree: routingNode.Serialize appends child hash, big-endian child weight, value hash, key in that order and DeserializeNode reads offsets [0:32], [32:40], [40:72], [72:] with the same byte order; collectNodes emits and deserializeTrie consumes in the same pre-order (node first, then children by ascending index / the single value)")
 	r.Rule("AGREE-linkback", "whenever markToCollect is called on a position read from a node (a branch's child slot, a shared-prefix node's value) its result is stored back into that same slot: a child that had to be loaded from storage becomes part of the trie that is exported")
 	r.Rule("EXPORT-kind", "collectNodes replaces an unrequested node by a bare hash reference only when it is a branch; shared-prefix and value nodes are exported in full, because the importer overwrites the parent's embedded copy with what the export contains and a later delete needs the sibling's kind and key to merge")
+	r.Rule("DOM-collected", "every return of GetPath that hands out an export (first result not nil) is dominated by the call of collectNodes: no shortcut in front of the marking and collection exports something else than the trie")
 	r.Rule("REF-fieldbuf", "see C10: no method of the weighted trie returns the byte view of a buffer kept in its receiver (an export handed out earlier would be rewritten by the next call)")
 	r.Rule("AGREE-limits", "the two wire entry points (path export import and block-proof verification) configure the same CBOR decoding limits (set in the function, in a package-local helper, or where a shared package-level decoding mode is built): a proof or export that one accepts is not rejected by the other for its size; and the importer raises MaxArrayElements above the library default (an export is one array of node records that grows with the number of requested keys)")
 	r.Rule("EXH-W", "see C09: markToCollect resolves a collapsed position before interpreting it")
@@ -45,6 +46,7 @@ func runC12(r *engine.Run) {
 	linkBack(r)
 	exportKind(r)
 	agreeLimits(r, "AGREE-limits")
+	domCollected(r, "DOM-collected")
 	refFieldBuf(r, "REF-fieldbuf", funcsOfPkg(r, pkgWMPT))
 	orderHashFresh(r, "ORDER-hashfresh")
 	domMarked(r, "DOM-marked")
@@ -367,6 +369,7 @@ func runC13(r *engine.Run) {
 	freshCopy(r, "FRESH-copy")
 	orderWait(r, "ORDER-wait")
 	orderJoined(r, "ORDER-joined")
+	recordsEvery(r, "AGREE-rollback")
 }
 
 func bookkeepingResets(f *ssa.Function) (map[string]bool, bool, bool) {
